@@ -17,6 +17,7 @@ import GocoinV.Proofs.C19Lz
 import GocoinV.Proofs.C19Bound
 import GocoinV.Proofs.C19Order
 import GocoinV.Proofs.C19Chunk
+import GocoinV.Proofs.C19Abort
 import GocoinV.Gen.QdbFacts
 namespace GocoinV.Props.C19
 open GocoinV GocoinV.Qdb GocoinV.QdbSpec GocoinV.Proofs.C19
@@ -25,7 +26,9 @@ open GocoinV GocoinV.Qdb GocoinV.QdbSpec GocoinV.Proofs.C19
 /-- The constants and guard shapes the hand-written model uses are the ones that stand in the source RIGHT
     NOW (Gen/QdbFacts.lean is regenerated from lib/others/qdb on every run): flag bits, default options,
     both bufio buffer sizes, `freerec` frees only on-disk records, `loadlog` rejects an unreadable header,
-    `defrag` clears PendingRecords. -/
+    `defrag` clears PendingRecords, Browse / BrowseAll apply the walk result's flags and release the record before
+    BR_ABORT can end the browse (the model's `browseStep` does both for every visited record, the aborting one
+    included). -/
 theorem model_matches_source_facts :
     NO_BROWSE = Gen.QdbFacts.NO_BROWSE ∧ NO_CACHE = Gen.QdbFacts.NO_CACHE ∧ BR_ABORT = Gen.QdbFacts.BR_ABORT ∧
     YES_CACHE = Gen.QdbFacts.YES_CACHE ∧ YES_BROWSE = Gen.QdbFacts.YES_BROWSE ∧
@@ -33,20 +36,22 @@ theorem model_matches_source_facts :
                     maxPending := Gen.QdbFacts.DefaultMaxPending, maxPendingNoSync := Gen.QdbFacts.DefaultMaxPendingNoSync } ∧
     bufSize = Gen.QdbFacts.defragBufSize ∧ bufSize = Gen.QdbFacts.idxBufSize ∧ Gen.QdbFacts.KeySize = 8 ∧
     Gen.QdbFacts.freerecChecksDatpos = true ∧ Gen.QdbFacts.loadlogRejectsHeaderError = true ∧
-    Gen.QdbFacts.defragClearsPending = true := by decide
+    Gen.QdbFacts.defragClearsPending = true ∧ Gen.QdbFacts.browseAppliesBeforeAbort = true := by decide
 
 /-- Refinement, cached sub-language. For EVERY sequence of Put / PutExt / Del / Get / Browse / ApplyFlags /
     Defrag / Sync / NoSync (any thresholds, volatile or not, forced or automatic sync and defrag inside)
     that never sets the NO_CACHE flag, started on a store whose records are all in memory, the store never
     fails (no os.Exit, no panic) and its content — keys, values and browsing flags — is exactly what the same
     sequence produces on the in-memory map `QdbSpec.mstep`; Get, Browse and Count after the sequence return
-    what the map returns. (The file system never influences an observation in this sub-language.) -/
+    what the map returns (Browse: `mbrowseOutW w` — the entries not flagged NO_BROWSE, up to the record at which the
+    walk function answers BR_ABORT; without such an answer that is `mbrowseOut`: mbrowseOutW_noAbort).
+    (The file system never influences an observation in this sub-language.) -/
 theorem qdb_refines_map_partial (db : DB) (ops : List Op) (he : db.eager = false) (h : Cached db)
     (ok : ∀ op ∈ ops, OpOK false op) :
     (run db ops).failed = none ∧
     absv (run db ops) = mrun (absv db) ops ∧
     (∀ k, (Qdb.get (run db ops) k).2 = mget (mrun (absv db) ops) k) ∧
-    (∀ w, WalkOK false w → (browse (run db ops) w).2 = mbrowseOut (mrun (absv db) ops)) ∧
+    (∀ w, WalkOK false w → (browse (run db ops) w).2 = mbrowseOutW w (mrun (absv db) ops)) ∧
     count (run db ops) = mcount (mrun (absv db) ops) := by
   have ok' : ∀ op ∈ ops, OpOK db.eager op := by rw [he]; exact ok
   obtain ⟨hc, ha⟩ := run_cached ops db h ok'
@@ -421,37 +426,30 @@ example :
     decide
 
 /-- Browse after ANY history of the sub-language, reopens (both modes) and crashes included: Browse (with a walk
-    function that never asks for NO_CACHE) shows only true entries — every (key, value) it visits is the in-memory
-    map's — and it shows every entry whose browsing flag in memory does not say NO_BROWSE. (Which flags a record
-    carries after a reopen is decided by what was persisted with it: the flags at its last sync or defrag.) -/
+    function that never asks for NO_CACHE; it may answer BR_ABORT) shows only true entries — every (key, value) it
+    visits is the in-memory map's — and it shows every entry whose browsing flag in memory does not say NO_BROWSE and
+    which the walk function's BR_ABORT answers do not cut off (`skipB … = false`; without a BR_ABORT answer: every
+    entry not flagged NO_BROWSE). (Which flags a record carries after a reopen is decided by what was persisted with it:
+    the flags at its last sync or defrag.) -/
 theorem browse_after_history_partial (load : Bool) (opts : Opts) (H : List HItem)
     (ok : ∀ i ∈ H, HOK false i) (fits : HFits (openDB {} false load opts) H) (w : List (Key × Nat)) (hw : WalkOK false w) :
     let db := hrun (openDB {} false load opts) H
     (∀ kv ∈ (browse db w).2, vals db kv.1 = some kv.2) ∧
-    (∀ k v f, ilookup k (absv db) = some (v, f) → hasFlag f NO_BROWSE = false → (k, v) ∈ (browse db w).2) := by
+    (∀ k v f, ilookup k (absv db) = some (v, f) → skipB false (mvisitSet false (absv db) w) f k = false →
+      (k, v) ∈ (browse db w).2) ∧
+    (NoAbort w → ∀ k v f, ilookup k (absv db) = some (v, f) → hasFlag f NO_BROWSE = false → (k, v) ∈ (browse db w).2) := by
   intro db
   obtain ⟨h3, _⟩ := hrun_dur H _ (Or.inl (fresh_inv3 (eg := false) load opts)) (hok_fresh load opts H ok) fits
   have hdbe : db.eager = false :=
     (hrun_eager H _ (Or.inl (fresh_inv3 (eg := false) load opts)) (hok_fresh load opts H ok) fits).trans
       (fresh_eager load opts)
-  have hb : (browse db w).2 = mbrowseOut (absv db) := (browse_cached db w h3.cached (by rw [hdbe]; exact hw)).2.2
+  have hb : (browse db w).2 = mbrowseOutW w (absv db) := (browse_cached db w h3.cached (by rw [hdbe]; exact hw)).2.2
   have hnd : (Keys (absv db)).Nodup := by rw [keys_absv]; exact h3.nodup
   rw [hb]
-  constructor
-  · intro kv hkv
-    unfold mbrowseOut at hkv
-    obtain ⟨⟨k, v, f⟩, hmem, hf⟩ := List.mem_filterMap.mp hkv
-    simp only [] at hf
-    split at hf
-    · cases hf
-    · cases hf
-      show mget (absv db) k = some v
-      unfold mget
-      rw [ilookup_of_mem_nodup _ hnd k (v, f) hmem]
-      rfl
-  · intro k v f hl hf
-    unfold mbrowseOut
-    exact List.mem_filterMap.mpr ⟨(k, v, f), ilookup_key_pair k (v, f) _ hl, by simp [hf]⟩
+  refine ⟨mbrowseOutV_sound _ _ hnd, fun k v f hl hs => mbrowseOutV_complete _ _ k v f hl hs, fun hna k v f hl hf => ?_⟩
+  rw [mbrowseOutW_noAbort w hna]
+  unfold mbrowseOut
+  exact List.mem_filterMap.mpr ⟨(k, v, f), ilookup_key_pair k (v, f) _ hl, by simp [hf]⟩
 
 /-- Lazily loaded records, first access. After ANY history of the sub-language (both modes, crashes included; bounds
     as in qdb_durable_partial, plus the size bounds of a Close now), Close and then NewDBExt in ANY mode with
@@ -498,7 +496,7 @@ theorem lazy_reopen_first_get_partial (load : Bool) (opts : Opts) (H : List HIte
     `a` never fails (no "file not found" exit in loadrec, no nil dereference in sync(), every NewDBExt on every crash
     directory succeeds), both are in the SAME directory and have performed the SAME file operations, and
     Get of every key returns the in-memory map `vals g` (what an in-memory map gives on the same history — the first
-    component of the specification `DurOK`, on which operations act by `vstep`), Browse (walk results: any 32-bit word without BR_ABORT, `WalkOK5`) shows exactly what the ghost's
+    component of the specification `DurOK`, on which operations act by `vstep`), Browse (walk results: ANY 32-bit word, BR_ABORT included — `WalkOK5`; the order of the walk list stands for Go's map order when an answer aborts: Model.Qdb.visitSet, every_abort_order_is_a_walk_list) shows exactly what the ghost's
     Browse shows — which is the map's: qdb_browse_is_map — and Count is the ghost's. -/
 theorem qdb_refines_map (load : Bool) (opts : Opts) (H : List HItem)
     (ok : ∀ i ∈ H, HOK5 i) (fits : HFits (openDB {} false load opts true) (twin H)) :
@@ -519,7 +517,7 @@ theorem qdb_refines_map (load : Bool) (opts : Opts) (H : List HItem)
     exact ⟨rfl, trivial, (fun _ _ h _ => by cases h), (fun _ _ h _ => by cases h), rfl⟩
   have hT : Twin a g := twin_run H _ _ hT0 ok fits
   obtain ⟨o1, o2, o3, o4, o5, o6⟩ := hT.observe
-  refine ⟨o1, o2, o3, o4, fun w hw => o5 w (fun kf hkf => (hw kf hkf).1), o6, Keys g.index, hT.sinv.nodup, fun k => ?_,
+  refine ⟨o1, o2, o3, o4, fun w hw => o5 w hw, o6, Keys g.index, hT.sinv.nodup, fun k => ?_,
     by rw [o6]; simp [count, Keys]⟩
   rw [vals_eq, Option.isSome_map]
   exact (ilookup_isSome_iff k g.index).symm
@@ -563,11 +561,11 @@ theorem qdb_durable (load : Bool) (opts : Opts) (H : List HItem)
 
 /-- non-vacuity of qdb_refines_map / qdb_durable: a NO_CACHE record, a sync that drops it, a Get that reads it back,
     a lazy reopen (automatic sync at every change from then on), ApplyFlags NO_CACHE, a Browse whose walk function asks
-    for NO_CACHE, an overwrite of a not-loaded record, a forced defrag, a VOLATILE session with lazy loading, a
+    for NO_BROWSE|NO_CACHE|BR_ABORT (7) at the first record it is shown, an overwrite of a not-loaded record, a forced defrag, a VOLATILE session with lazy loading, a
     crash inside a Sync while records are not in memory -/
 example :
     let H := [HItem.op (.putExt 1 [1, 2] NO_CACHE), .op (.put 2 [5]), .op .sync, .op (.get 1),
-              .op (.reopen false false { maxPending := 0 }), .op (.applyFlags 2 NO_CACHE), .op (.browse [(1, NO_CACHE)]),
+              .op (.reopen false false { maxPending := 0 }), .op (.applyFlags 2 NO_CACHE), .op (.browse [(2, 7), (1, NO_CACHE)]),
               .op (.put 2 [6, 6]), .op (.defrag true), .op (.reopen true false {}), .op (.put 1 [8]),
               .op (.reopen false true {}), .crash .sync 1 [] false {}]
     (∀ i ∈ H, HOK5 i) ∧ HFits (openDB {} false true {} true) (twin H) := by
@@ -578,38 +576,42 @@ example :
       simp [HOK5, itemOp, OpOK5, WalkOK5, NO_CACHE, BR_ABORT, hasFlag]
   · show HFits (openDB {} false true {} true)
       [HItem.op (.putExt 1 [1, 2] NO_CACHE), .op (.put 2 [5]), .op .sync, .op (.get 1),
-       .op (.reopen false true { maxPending := 0 }), .op (.applyFlags 2 NO_CACHE), .op (.browse [(1, NO_CACHE)]),
+       .op (.reopen false true { maxPending := 0 }), .op (.applyFlags 2 NO_CACHE), .op (.browse [(2, 7), (1, NO_CACHE)]),
        .op (.put 2 [6, 6]), .op (.defrag true), .op (.reopen true true {}), .op (.put 1 [8]),
        .op (.reopen false true {}), .crash .sync 1 [] false {}]
     simp only [HFits, OpFits3, OpFits, SizeOK, dFits_iff]
     decide
 
-/-- the walk results the theorems allow exclude BR_ABORT (value 4), which the model's Browse does not implement; every
-    other 32-bit word is allowed -/
-example : ¬ OpOK5 (.browse [(1, 4)]) ∧ ¬ OpOK5 (.browse [(1, 0xFFFFFFFF)]) ∧ OpOK5 (.browse [(1, 0xFFFFFFFB), (2, 0x80000003)]) := by
-  refine ⟨fun h => ?_, fun h => ?_, ?_⟩
-  · exact absurd (h (1, 4) List.mem_cons_self).2 (by decide)
-  · exact absurd (h (1, 0xFFFFFFFF) List.mem_cons_self).2 (by decide)
+/-- the walk results the theorems allow: every 32-bit word, BR_ABORT (value 4) alone or together with any other bit -/
+example : OpOK5 (.browse [(1, 4)]) ∧ OpOK5 (.browse [(1, 0xFFFFFFFF)]) ∧ OpOK5 (.browse [(1, 5), (2, 0x80000007)]) ∧
+    ¬ OpOK5 (.browse [(1, 0x100000000)]) := by
+  refine ⟨?_, ?_, ?_, fun h => absurd (h (1, 0x100000000) List.mem_cons_self) (by decide)⟩ <;>
   · intro kf hkf
     simp only [List.mem_cons, List.not_mem_nil, or_false] at hkf
-    rcases hkf with rfl | rfl <;> exact ⟨by decide, by decide⟩
+    rcases hkf with rfl | rfl <;> decide
 
 /-- BROWSE, the whole operation language (histories, ghost and bounds exactly as in qdb_refines_map — NO_CACHE flags,
     lazy loading, both modes, crashes and recoveries included). `absv g` is the in-memory map WITH the browsing flags
     (key ↦ (value, flags); `vals g k = mget (absv g) k` is its value part — the map qdb_refines_map and qdb_durable speak
-    about). For every walk function that returns 32-bit words without BR_ABORT, Browse of the REAL store
-    (a) visits exactly the entries of that map whose flag word does not say NO_BROWSE (`mbrowseOut`), each with its
-        value — in particular records that are not in memory are read back from the data file correctly;
+    about). For every walk function that returns 32-bit words (BR_ABORT included), Browse of the REAL store
+    (a) visits exactly the entries of that map whose flag word does not say NO_BROWSE and which lie before the point at
+        which the walk function answers BR_ABORT (`mbrowseOutW w`; what that point is: browse_abort_visit_set), each
+        with its value — in particular records that are not in memory are read back from the data file correctly;
     (b) soundness: every (key, value) it shows is the map's;
-    (c) completeness: every entry whose flags do not say NO_BROWSE is shown.
+    (c) completeness: every entry that is not skipped (flag word without NO_BROWSE, not cut off by a BR_ABORT answer)
+        is shown;
+    (d) when no answer carries BR_ABORT that is every entry whose flag word does not say NO_BROWSE (`mbrowseOut`).
     (Which flag word a record carries after a reopen is what was persisted with it at its last sync / defrag.) -/
 theorem qdb_browse_is_map (load : Bool) (opts : Opts) (H : List HItem)
     (ok : ∀ i ∈ H, HOK5 i) (fits : HFits (openDB {} false load opts true) (twin H)) (w : List (Key × Nat)) (hw : WalkOK5 w) :
     let a := hrun (openDB {} false load opts) H
     let g := hrun (openDB {} false load opts true) (twin H)
-    (browse a w).2 = mbrowseOut (absv g) ∧
+    (browse a w).2 = mbrowseOutW w (absv g) ∧
     (∀ kv ∈ (browse a w).2, vals g kv.1 = some kv.2) ∧
-    (∀ k v f, ilookup k (absv g) = some (v, f) → hasFlag f NO_BROWSE = false → (k, v) ∈ (browse a w).2) := by
+    (∀ k v f, ilookup k (absv g) = some (v, f) → skipB false (mvisitSet false (absv g) w) f k = false →
+      (k, v) ∈ (browse a w).2) ∧
+    (NoAbort w → (browse a w).2 = mbrowseOut (absv g) ∧
+      ∀ k v f, ilookup k (absv g) = some (v, f) → hasFlag f NO_BROWSE = false → (k, v) ∈ (browse a w).2) := by
   intro a g
   obtain ⟨_, _, _, _, o5, _⟩ := qdb_refines_map load opts H ok fits
   have hok : ∀ i ∈ twin H, HOK (openDB {} false load opts true).eager i := by
@@ -617,27 +619,82 @@ theorem qdb_browse_is_map (load : Bool) (opts : Opts) (H : List HItem)
   obtain ⟨h3, _⟩ := hrun_dur (twin H) _ (Or.inl (fresh_inv3 (eg := true) load opts)) hok fits
   have hge : g.eager = true :=
     (hrun_eager (twin H) _ (Or.inl (fresh_inv3 (eg := true) load opts)) hok fits).trans (openDB_eager {} false load opts)
-  have hb : (browse g w).2 = mbrowseOut (absv g) :=
-    (browse_cached g w h3.cached (by rw [hge]; exact fun kf hkf => hasFlag_big32 kf.2 (hw kf hkf).1)).2.2
+  have hb : (browse g w).2 = mbrowseOutW w (absv g) :=
+    (browse_cached g w h3.cached (by rw [hge]; exact fun kf hkf => hasFlag_big32 kf.2 (hw kf hkf))).2.2
   have hnd : (Keys (absv g)).Nodup := by rw [keys_absv]; exact h3.nodup
-  have e : (browse a w).2 = mbrowseOut (absv g) := (o5 w hw).trans hb
-  refine ⟨e, ?_, ?_⟩
-  · rw [e]
-    intro kv hkv
-    unfold mbrowseOut at hkv
-    obtain ⟨⟨k, v, f⟩, hmem, hf⟩ := List.mem_filterMap.mp hkv
-    simp only [] at hf
-    split at hf
-    · cases hf
-    · cases hf
-      show mget (absv g) k = some v
-      unfold mget
-      rw [ilookup_of_mem_nodup _ hnd k (v, f) hmem]
-      rfl
-  · rw [e]
-    intro k v f hl hf
+  have e : (browse a w).2 = mbrowseOutW w (absv g) := (o5 w hw).trans hb
+  refine ⟨e, ?_, ?_, fun hna => ⟨by rw [e, mbrowseOutW_noAbort w hna], fun k v f hl hf => ?_⟩⟩
+  · rw [e]; exact mbrowseOutV_sound _ _ hnd
+  · rw [e]; exact fun k v f hl hs => mbrowseOutV_complete _ _ k v f hl hs
+  · rw [e, mbrowseOutW_noAbort w hna]
     unfold mbrowseOut
     exact List.mem_filterMap.mpr ⟨(k, v, f), ilookup_key_pair k (v, f) _ hl, by simp [hf]⟩
+
+/-- WHAT BR_ABORT MEANS (the visit set of a Browse / BrowseAll on an index or a map; `eligible`: the key is present and —
+    for Browse — its flag word does not say NO_BROWSE). `visitSet = none` — everything eligible is visited — exactly when
+    no eligible record's answer carries BR_ABORT. `visitSet = some (k :: t)`: the answer for `k` carries BR_ABORT, `k`
+    and the keys of `t` are eligible and no answer for a key of `t` carries it: the browse hands exactly these records
+    to the walk function, `k` last, and stops. -/
+theorem browse_abort_visit_set {α : Type} (flagsOf : α → Nat) (all : Bool) (idx : List (Key × α)) (w : List (Key × Nat)) :
+    match visitSet flagsOf all idx w with
+    | none => ∀ k, eligible flagsOf all idx k = true → hasFlag (walkRes w k) BR_ABORT = false
+    | some l => ∃ k t, l = k :: t ∧ eligible flagsOf all idx k = true ∧ hasFlag (walkRes w k) BR_ABORT = true ∧
+        ∀ k' ∈ t, eligible flagsOf all idx k' = true ∧ hasFlag (walkRes w k') BR_ABORT = false := by
+  have h := visitSet_char flagsOf all idx w
+  cases hv : visitSet flagsOf all idx w with
+  | none => rw [hv] at h; exact h
+  | some l => rw [hv] at h; exact h
+
+/-- EVERY STOPPING POINT GO'S MAP ORDER CAN PRODUCE IS COVERED. For a walk function (`walkRes w0`) and any sequence of
+    distinct eligible keys `init ++ [last]` in which the answer for `last` is the first to carry BR_ABORT — i.e. any
+    way the real Browse can run into an abort, whatever order Go's map iteration takes — the walk list that names
+    these keys first, in that order, has the same answers and exactly that visit set. The theorems above hold for every
+    walk list, hence for every such run; the harness builds this list from the order observed on the real store. -/
+theorem every_abort_order_is_a_walk_list {α : Type} (flagsOf : α → Nat) (all : Bool) (idx : List (Key × α))
+    (w0 : List (Key × Nat)) (init : List Key) (last : Key)
+    (hnd : (init ++ [last]).Nodup) (hel : ∀ k ∈ init ++ [last], eligible flagsOf all idx k = true)
+    (hna : ∀ k ∈ init, hasFlag (walkRes w0 k) BR_ABORT = false) (hab : hasFlag (walkRes w0 last) BR_ABORT = true) :
+    let w := (init ++ [last]).map (fun k => (k, walkRes w0 k)) ++ w0
+    (∀ k, walkRes w k = walkRes w0 k) ∧ visitSet flagsOf all idx w = some (last :: init.reverse) :=
+  Proofs.C19.every_abort_order_is_a_walk_list flagsOf all idx w0 init last hnd hel hna hab
+
+/-- A BR_ABORT ANSWER TAKES ITS FLAGS ALONG (histories, ghost and bounds as in qdb_refines_map). The in-memory map after
+    a Browse is `mbrowseState`: the walk function's answer is applied to the flag word of every VISITED entry and of no
+    other; and when the browse stops at `k`, whatever else the aborting answer carries (NO_BROWSE, YES_BROWSE, NO_CACHE,
+    YES_CACHE) is applied to `k` too. (The history may continue: `.browse w` with such answers is an operation of
+    qdb_refines_map / qdb_durable, so the next Browse, the next sync and the next reopen see that flag word.) -/
+theorem qdb_browse_abort_applies_answer (load : Bool) (opts : Opts) (H : List HItem)
+    (ok : ∀ i ∈ H, HOK5 i) (fits : HFits (openDB {} false load opts true) (twin H)) (w : List (Key × Nat)) (hw : WalkOK5 w) :
+    let g := hrun (openDB {} false load opts true) (twin H)
+    absv (browse g w).1 = mbrowseState (absv g) w ∧
+    (∀ k v f, ilookup k (absv g) = some (v, f) → ilookup k (absv (browse g w).1) =
+      some (v, if skipB false (mvisitSet false (absv g) w) f k then f else applyBrowsingFlags f (walkRes w k))) ∧
+    (∀ k t v f, mvisitSet false (absv g) w = some (k :: t) → ilookup k (absv g) = some (v, f) →
+      hasFlag (walkRes w k) BR_ABORT = true ∧
+      ilookup k (absv (browse g w).1) = some (v, applyBrowsingFlags f (walkRes w k))) := by
+  intro g
+  have hok : ∀ i ∈ twin H, HOK (openDB {} false load opts true).eager i := by
+    rw [openDB_eager]; exact hok_twin H ok
+  obtain ⟨h3, _⟩ := hrun_dur (twin H) _ (Or.inl (fresh_inv3 (eg := true) load opts)) hok fits
+  have hge : g.eager = true :=
+    (hrun_eager (twin H) _ (Or.inl (fresh_inv3 (eg := true) load opts)) hok fits).trans (openDB_eager {} false load opts)
+  have hs : absv (browse g w).1 = mbrowseState (absv g) w :=
+    (browse_cached g w h3.cached (by rw [hge]; exact fun kf hkf => hasFlag_big32 kf.2 (hw kf hkf))).2.1
+  refine ⟨hs, fun k v f hl => ?_, fun k t v f hvs hl => ?_⟩
+  · rw [hs]; exact mbrowseState_lookup _ w k v f hl
+  · rw [hs]; exact abort_answer_flags_applied _ w k t v f hvs hl
+
+/-- non-vacuity / a worked case: on the map {1 ↦ [1], 2 ↦ [2], 3 ↦ [3]} a walk function answering NO_BROWSE|BR_ABORT
+    for key 2 first shows key 2 only, hides it from then on, and leaves 1 and 3 alone; answering bare BR_ABORT for an
+    absent key (9) and for a hidden key aborts nothing -/
+example :
+    let m : M := [(1, ([1], 0)), (2, ([2], 0)), (3, ([3], 0))]
+    mvisitSet false m [(2, 5), (1, 0)] = some [2] ∧
+    mbrowseOutW [(2, 5), (1, 0)] m = [(2, [2])] ∧
+    mbrowseOutW [] (mbrowseState m [(2, 5), (1, 0)]) = [(1, [1]), (3, [3])] ∧
+    mbrowseOutW [(9, 4), (2, 4)] (mbrowseState m [(2, 5), (1, 0)]) = [(1, [1]), (3, [3])] ∧
+    mvisitSet false m [(1, 16), (3, 4), (2, 4)] = some [3, 1] := by
+  decide
 
 /-- THE DURABLE MAP IS WHAT NewDBExt FINDS (link between `diskValue`, in which qdb_durable states durability, and the
     model's real open). After any history as in qdb_refines_map / qdb_durable, take the directory the REAL store is in
